@@ -146,7 +146,11 @@ func TestVerif_C01(t *testing.T) {
 					Withdrawal: &common.WithdrawalData{Address: "addr", Tag: "tag"}}
 			}
 			var signIns []*verifgen.Out
-			switch rng.Intn(11) {
+			switch rng.Intn(12) {
+			case 11: // two more outputs of 2^63 units each: every amount fits a machine word, their sum is 2^64
+				pert = "outputs-plus-2^64-in-word-sized-parts"
+				half := new(big.Int).Lsh(big.NewInt(1), 63)
+				specs = append(specs, w.spec(verifgen.Units(half), 2), w.spec(verifgen.Units(half), 2))
 			case 10: // an output that does not exist: the index of a real output shifted by a multiple of 256
 				pert = "input-index-shifted-by-256"
 				orig := ins[rng.Intn(len(ins))]
